@@ -295,7 +295,12 @@ def spec_special(I, st, name, node):
             raise Unsupported("quantifier variables need sorts as defaults: forall(lambda s=Str: ...)")
         side = []
         for nm, d in zip(names, defaults):
-            ty = REG.parse(ast.unparse(d))
+            tname = ast.unparse(d)
+            if not REG.has(tname) and tname not in ("Int", "Real", "Str", "Bool", "DT", "TD"):
+                sv = (st.frame.spec_env or {}).get("self")
+                if sv is not None and is_ref(strip_opt(sv.ty)):
+                    tname = REG.get(strip_opt(sv.ty)[1]).all_params(REG).get(tname, tname)
+            ty = REG.parse(tname)
             c = z3.FreshConst(sort_of(strip_opt(ty)), nm)
             bound.append(c)
             v = Val(strip_opt(ty), c)
@@ -365,6 +370,7 @@ def bind_args(I, st, fi, args, kwargs, node, contract=None):
             out[p.arg] = eval_default(I, st, fi, d)
         params.append(p)
     # coerce to declared types (materialise `{}` literals, Int->Real)
+    st._bind_self = out.get("self")
     for p in params:
         ty = param_type(I, st, fi, p, contract)
         v = out[p.arg]
@@ -375,7 +381,7 @@ def bind_args(I, st, fi, args, kwargs, node, contract=None):
 
 def adapt(I, st, v, ty):
     base = strip_opt(ty)
-    if v.extra and v.extra[0] in ("emptydict", "emptylist") and v.term is None:
+    if v.extra and v.extra[0] in ("emptydict", "emptylist", "emptyset") and v.term is None:
         if is_ref(base):
             kd = REG.get(base[1])
             return I.new_list(st, base[1]) if kd.kind == "list" else I.new_dict(st, base[1])
@@ -400,7 +406,15 @@ def eval_default(I, st, fi, expr):
 def param_type(I, st, fi, p, contract=None):
     c = contract or I.db.get(fi.qualname)
     if c is not None and p.arg in c.types:
-        return REG.parse(c.types[p.arg])
+        t = c.types[p.arg]
+        if "$" in t:
+            sv = getattr(st, "_bind_self", None)
+            t = subst_params(t, sv)
+            if "$" in t:
+                kd0 = REG.by_qualname.get(fi.cls.qualname) if fi.cls is not None else None
+                for pp, tt in (kd0.all_params(REG) if kd0 else {}).items():
+                    t = t.replace("$" + pp, tt)
+        return REG.parse(t)
     if p.arg == "self" and fi.cls is not None:
         if c is not None and c.self_type:
             return REG.parse(c.self_type)
@@ -410,10 +424,17 @@ def param_type(I, st, fi, p, contract=None):
     return annotation_type(I, st, p.annotation, fi.module)
 
 
-def return_type(I, st, fi, contract=None):
+def subst_params(tystr, selfv):
+    if "$" in tystr and selfv is not None and is_ref(strip_opt(selfv.ty)):
+        for p, t in REG.get(strip_opt(selfv.ty)[1]).all_params(REG).items():
+            tystr = tystr.replace("$" + p, t)
+    return tystr
+
+
+def return_type(I, st, fi, contract=None, selfv=None):
     c = contract or I.db.get(fi.qualname)
     if c is not None and c.returns:
-        return REG.parse(c.returns)
+        return REG.parse(subst_params(c.returns, selfv))
     t = annotation_type(I, st, fi.node.returns, fi.module)
     return t
 
@@ -458,6 +479,10 @@ def call_repo(I, st, fi, args, kwargs, node, is_property=False, static=False):
                     st.assume(z3.Or(*[st.cls_is(recv.term, s) for s in subs]))
                     # refine the static type of the receiver
                     narrowed = subs[0] if len(subs) == 1 else base[1]
+                    if len(subs) > 1 and f2.cls is not None and f2.cls.qualname in REG.by_qualname:
+                        decl = REG.by_qualname[f2.cls.qualname].name
+                        if all(REG.is_sub(s_, decl) for s_ in subs):
+                            narrowed = decl
                     args = [Val(("Ref", narrowed), recv.term, recv.none)] + list(args[1:])
                 if not st.feasible():
                     raise PathEnd("dispatch infeasible")
@@ -640,7 +665,7 @@ def apply_contract(I, st, c, fi, argmap, node):
     st.old_heap, st.old_alloc = pre_heap, pre_alloc
     try:
         if k == 0:
-            rt = return_type(I, st, fi, c)
+            rt = return_type(I, st, fi, c, argmap.get("self"))
             if rt in (None, "NoneT"):
                 res = NONE
             elif rt == "Any":
